@@ -489,7 +489,10 @@ func (w *World) DrawAction(rt *rapid.T, p *Profile) (Action, string) {
 			ps.EmptyAffinity = ps.Via == "none" && rapid.IntRange(0, 2).Draw(rt, "emptyAffinity") == 0
 			ps.Terminating = rapid.SampledFrom([]int64{0, 0, 0, 0, -90, -1, 25, 600}).Draw(rt, "terminating")
 			ps.Tolerate = rapid.SampledFrom([]string{"", "", "", "all", "escalator"}).Draw(rt, "tolerate")
-			ps.Static = ps.Via == "none" && rapid.IntRange(0, 5).Draw(rt, "static") == 0
+			ps.Static = rapid.IntRange(0, 6).Draw(rt, "static") == 0 // a mirror pod may carry a selector: in a labelled group it counts like any pod
+			if ps.Via != "none" && rapid.IntRange(0, 3).Draw(rt, "emptyAffinityOnSelector") == 0 {
+				ps.EmptyAffinity = true
+			}
 			if rapid.IntRange(0, 5).Draw(rt, "init") == 0 {
 				ps.InitCPU, ps.InitMem = int64(rapid.IntRange(0, 5000).Draw(rt, "initCPU")), int64(rapid.IntRange(0, 5000).Draw(rt, "initMemMB"))*1_000_000
 				if rapid.Bool().Draw(rt, "secondInit") { // the CPU peak and the memory peak sit in different init containers
@@ -855,6 +858,28 @@ func (w *World) DrawAction(rt *rapid.T, p *Profile) (Action, string) {
 			}
 			return Action{Op: "seq", Seq: []Action{{Op: "setPods", Group: g, Pods: pods}, {Op: "scan", Flag: true}}}, "unevenStarve"
 		}
+	case "parkedAsg": // the cloud group is parked (min = max = desired = 0) while pods for the group wait
+		via := "selector"
+		if w.Cfg.Groups[g].Opts.Name == controller.DefaultNodeGroup {
+			via = "none"
+		}
+		return Action{Op: "seq", Seq: []Action{
+			{Op: "zeroOut", Group: g}, {Op: "clearPods", Group: g}, {Op: "asgEdit", Group: g, N: 0, M: 0},
+			{Op: "addPods", Group: g, Pods: []PodSpec{{Group: g, Via: via, CPU: int64(rapid.IntRange(1, 3000).Draw(rt, "cpu")), Mem: 1_000_000}}},
+			{Op: "scan", Flag: true},
+		}}, "parkedAsg"
+	case "cordonedTaintedThenBusy": // two tainted nodes, the newer one also cordoned; then the group needs capacity
+		if names := w.GroupNodeNames(g); len(names) >= 3 {
+			from := rapid.IntRange(0, len(names)-2).Draw(rt, "from")
+			tp, _ := w.drawTargetPods(rt, g, "aboveS", "farAboveS")
+			stamp := fmt.Sprint(time.Now().Add(-time.Duration(rapid.IntRange(0, 20).Draw(rt, "ago")) * time.Second).Unix())
+			return Action{Op: "seq", Seq: []Action{
+				{Op: "taint", Node: names[from], Key: ref.TaintKey, Val: stamp, Effect: "NoSchedule"},
+				{Op: "taint", Node: names[from+1], Key: ref.TaintKey, Val: stamp, Effect: "NoSchedule"},
+				{Op: "cordon", Node: names[from+1], Flag: true},
+				tp, {Op: "scan", Flag: true},
+			}}, "cordonedTaintedThenBusy"
+		}
 	case "pinAsg": // the ASG is pinned (min == max) at or just below the group's node count while utilisation is low
 		if n := len(w.GroupNodeNames(g)); n > 0 {
 			pin := n - rapid.IntRange(0, 1).Draw(rt, "below")
@@ -1184,7 +1209,7 @@ func (w *World) drawFault(rt *rapid.T) Action {
 }
 
 // cloudErrorCodes are AWS error codes an injected cloud failure may carry ("" = InternalFailure).
-var cloudErrorCodes = []string{"", "", "Throttling", "RequestLimitExceeded", "ThrottlingException", "ValidationError", "ServiceUnavailable", "RequestExpired"}
+var cloudErrorCodes = []string{"", "", "shape:no-reservation", "shape:empty-reservation", "Throttling", "RequestLimitExceeded", "ThrottlingException", "ValidationError", "ServiceUnavailable", "RequestExpired"}
 
 func maxInt(a, b int) int {
 	if a > b {
